@@ -126,19 +126,25 @@ CLAIMS["C19"] = dict(
 
 CLAIMS["C06"] = dict(
     category="other",
-    text=("Decides: (D1) exact algebraic identities: for the four boundary-projection helpers |z + tau d|^2 = Delta^2 in the "
-          "inner product the caller's zz belongs to (algebraic square-root atom, Gram atoms, linear-operator atoms), "
-          "update_step_length_squared is the expansion of <z+ad,z+ad>, the preconditioned recurrences have the published "
-          "form and receive the current rPr/z/d and the previous zd/dd; exits labelled boundary/negative-curvature return the "
-          "projection under the matching guard and interior exits return the iterate under the residual guard (CG solver and "
-          "its subspace sibling); (D2) every dogleg return is justified by its path condition and the Cauchy point is a "
-          "non-positive multiple of the gradient on both curvature branches; (D3) treigen.solve type-checks in an index-space "
-          "type system (space vs eigen-mode axes; eigh gives eigenvectors as columns), returns space vectors, and its hard-case "
-          "multiplier puts the step on the boundary and stays finite when p is orthogonal to the eigenvector, and the offset added to "
-          "-lambda_min to start the boundary iteration is non-negative for every spectrum (sign analysis; witness spectrum otherwise). Model decrease "
-          ">= Cauchy decrease, interior Newton residuals and global optimality are NOT decided."),
-    design_ref="DESIGN.md section 4, C06",
-    technique="static analysis: algebraic normal forms with algebraic/Gram atoms, dominator rules on labelled exits, currentness of loop-carried arguments via reaching definitions, index-space type inference")
+    text=("Decided on values obtained by interpreting each solver on symbolic vectors and scalars (rules/C06_sym.py, an extension of "
+          "optilint.tensoreval with dimension-free values: scalars are exact rational functions with algebraic square-root atoms, vectors are "
+          "linear combinations of symbols under words of symmetric operators (Hessian, preconditioner and its formal inverse, approximate "
+          "Hessian), inner products expand into Gram atoms so every spelling of z.d is one value, eigh gives a mode vector and an orthogonal "
+          "matrix with separate index spaces; every comparison forks the path and is remembered as a sign set; loops run from a generalised "
+          "head state giving a base and a step; records, dicts, partial, dict dispatch, break/flag exits are executed): (D1) for each CG "
+          "solver and inner-product mode the carried scalars that stand for <z,z>, <z,d>, <d,d> are found as the assignment under which a "
+          "boundary exit has norm Delta; they hold on entry, zz' = zz + 2a zd + a^2 dd, the preconditioned updates follow the published "
+          "recurrences with a, b, r' read from the values of the new iterate and direction, every boundary and negative-curvature exit has "
+          "norm Delta under the right guard, a step is only taken under <d,Hd> > 0, the carried residual stays g + Hz, an interior exit returns a "
+          "point whose own residual passed the tolerance; the public projection helpers by value; the call of the subspace CG against its "
+          "contract; (D2) every dogleg return path is inside the region and on the path (identities, path facts, an intermediate-value "
+          "argument along the Newton leg; refutations carry a numeric witness), the Cauchy point is c*(gradient given to the CG solver) with "
+          "c <= 0; (D3) the hard-case step p + tau z has norm Delta with a non-vanishing denominator where p.z = 0, the initial multiplier is "
+          "-lambda_min + offset with offset >= 0 (refuted on sample spectra), index-space typing of treigen.solve. The CG orthogonality "
+          "relations behind the preconditioned recurrences are trusted; model decrease >= Cauchy decrease and optimality of the eigen solution "
+          "are NOT decided. REFUTED only for a differing value, a definite sign or a witness; an unprovable bound is UNDECIDED."),
+    design_ref="DESIGN.md section 4, C06 and section 11.8.3",
+    technique="static analysis: abstract interpretation on dimension-free symbolic vectors (Gram atoms, operator words, algebraic square roots), path forking with sign sets, loop base/step generalisation; exact identities with numeric witnesses for refutation")
 
 CLAIMS["C18"] = dict(
     category="proof",
